@@ -25,8 +25,18 @@ def isAscii (s : Bytes) : Bool := s.all (· < 128)
 /-- `strings.EqualFold` on ASCII. -/
 def eqFold (a c : Bytes) : Bool := toLower a == toLower c
 
+/-- decimal digits, least significant first (fuel > n suffices) -/
+def digitsRevF : Nat → Nat → Bytes
+  | 0, _ => []
+  | f + 1, n => (48 + n % 10).toUInt8 :: (if n < 10 then [] else digitsRevF f (n / 10))
+
 /-- decimal digits of a natural number, most significant first -/
-def natDigits (n : Nat) : Bytes := (Nat.toDigits 10 n).map (fun ch => ch.toNat.toUInt8)
+def natDigits (n : Nat) : Bytes := (digitsRevF (n + 1) n).reverse
+
+/-- value of a digit list given least significant digit first -/
+def valRev : Bytes → Nat
+  | [] => 0
+  | d :: r => (d.toNat - 48) + 10 * valRev r
 
 /-- `%d` of an integer -/
 def fmtInt (i : Int) : Bytes :=
@@ -37,7 +47,7 @@ def fmtInt (i : Int) : Bytes :=
 def fmtNat (n : Nat) : Bytes := natDigits n
 
 /-- value of a digit string (all bytes must be digits) -/
-def digitsVal (ds : Bytes) : Nat := ds.foldl (fun acc c => acc * 10 + (c.toNat - 48)) 0
+def digitsVal (ds : Bytes) : Nat := valRev ds.reverse
 
 def allDigits (ds : Bytes) : Bool := !ds.isEmpty && ds.all isDigit
 
